@@ -11,8 +11,8 @@ def c07(tier):
         runs.append(H("c07_deterministic", "asan", 40, "4,4,4,4", timeout_per_case=240, params=dict(maxitems=200)))
     else:
         for t in TOPOS_THOROUGH:
-            runs.append(H("c07_deterministic", "plain", 400, t, timeout_per_case=240, params=dict(maxitems=800, biggen=1)))
-            runs.append(H("c07_deterministic", "asan", 120, t, timeout_per_case=300, params=dict(maxitems=300)))
+            runs.append(H("c07_deterministic", "plain", 150, t, timeout_per_case=240, params=dict(maxitems=800, biggen=1)))
+            runs.append(H("c07_deterministic", "asan", 50, t, timeout_per_case=300, params=dict(maxitems=300)))
         for cpus in (2, 4):
             runs.append(H("c07_deterministic", "plain", 40, "12,12,8", cpus=cpus, timeout_per_case=400,
                           params=dict(oversub=1, maxitems=80)))
